@@ -1125,6 +1125,32 @@ def structure_models():
         "struct-union-arity-only-in-alias": {"model/model.yml": "Au: [int, float, string, bool]\n" + rec(("x", "Au?")) + pk},
         "struct-union-arity-only-in-generic-argument": {"model/model.yml": "Gk<T>: !record\n  fields:\n    t: T\n" + "Ug: [int, float, string]\n" + rec(("g", "Gk<Ug>")) + pk},
     }
+    # structured collisions and text that reaches the generated sources verbatim (reported by seeding agents); yardl may reject
+    may = {
+        "comment-with-backslash-escape": "# path C:\\new\\x1 and \\N{DASH}\n" + rec(("x", "int")) + pk,
+        "comment-ending-in-backslash": "# ends with a backslash \\\n" + rec(("x", "int")) + pk,
+        "field-comment-ending-in-backslash": "Rk: !record\n  fields:\n    # trailing \\\n    x: int\n    y: int\n" + pk,
+        "comment-with-triple-quotes": '# say """hello""" and */ too\n' + rec(("x", "int")) + pk,
+        "unions-differing-by-alias-in-vector": "MyFloat: float\n" + rec(("u", "!union {i: int, fv: float*}"), ("v", "!union {i: int, fv: MyFloat*}")) + pk,
+        "type-named-like-writer-base": "PkWriterBase: !record\n  fields:\n    x: int\n" + rec(("x", "PkWriterBase")) + pk,
+        "type-named-like-binary-writer": "BinaryPkWriter: !record\n  fields:\n    x: int\n" + rec(("x", "BinaryPkWriter")) + pk,
+        "type-named-like-serializer": "RkSerializer: !record\n  fields:\n    x: int\n" + rec(("x", "RkSerializer")) + pk,
+        "fields-equal-in-snake-case": rec(("fooBar", "int"), ("fooBAR", "int")) + pk,
+        "enum-values-equal-in-upper-snake-case": "Ek: !enum\n  values: [fooBar, fooBAR]\n" + rec(("e", "Ek")) + pk,
+        "steps-a-and-aImpl": rec(("x", "int")) + pk + "    aImpl: int\n",
+        "steps-s-and-endS": rec(("x", "int")) + "Pk: !protocol\n  sequence:\n    s: !stream\n      items: int\n    endS: int\n",
+        "computed-field-named-like-record": "Rk: !record\n  fields:\n    x: int\n  computedFields:\n    rk: x\n" + pk,
+        "field-named-like-record": rec(("rk", "int")) + pk,
+        "enum-without-values": "Ek: !enum\n  values: []\n" + rec(("e", "Ek")) + pk,
+        "flags-without-values": "Ek: !flags\n  values: []\n" + rec(("e", "Ek")) + pk,
+        "generic-parameter-only-inside-array-item": "Wk<T>: !record\n  fields:\n    t: T\nGk<T>: !record\n  fields:\n    a: !array {items: Wk<T>}\n" + rec(("g", "Gk<int>")) + pk,
+        "generic-parameter-only-inside-vector-item": "Wk<T>: !record\n  fields:\n    t: T\nGk<T>: !record\n  fields:\n    a: Wk<T>*\n" + rec(("g", "Gk<int>")) + pk,
+        "int64-minimum-literal": "Ek: !enum\n  base: int64\n  values: {a: -0x8000000000000000}\n" + "Rk: !record\n  fields:\n    e: Ek\n  computedFields:\n    m: -9223372036854775808\n" + pk,
+    }
+    for name, text in may.items():
+        out["struct-" + name] = {"model/model.yml": text, "__may_reject__": True}
+    out["struct-version-labelled-current"] = {"model/model.yml": rec(("x", "int")) + pk, "v0/_package.yml": "namespace: Bq\n", "v0/model.yml": rec(("x", "int")) + pk,
+                                              "__version_label__": "Current", "__may_reject__": True}
     # enum / flags values at the edges of the base type: accepted values must be representable in every backend
     for name, base, vals in (("enum-default-base-int32-max", None, "{a: 0, z: 0x7FFFFFFF}"), ("enum-default-base-above-int32", None, "{a: 0, z: 0xFFFFFFFF}"),
                              ("enum-default-base-below-int32", None, "{a: 0, z: -2147483649}"), ("enum-default-base-int32-min", None, "{a: 0, z: -2147483648}"),
@@ -1195,7 +1221,7 @@ def part_c(chk, quick):
         mname, mfiles, cfg = case
         files = dict(mfiles)
         imports = ("../imp",) if "imp/_package.yml" in files else (("../ib", "../ic") if "ib/_package.yml" in files else ())
-        versions = (("v0", "../v0"),) if "v0/_package.yml" in files else ()
+        versions = ((files.get("__version_label__", "v0"), "../v0"),) if "v0/_package.yml" in files else ()
         c = dict(DEFAULT_CFG)
         c.update(cfg)
         for k in ("ndjson", "hdf5", "cmake", "pyndjson"):
